@@ -143,6 +143,9 @@ class ExprGen:
         typed = [n for n in self.s.signals if self.s.typed.get(n)]
         if self.allow_typeof and typed and draw(st.integers(0, 4)) == 0:
             return TypeOf(draw(st.sampled_from(typed)))
+        untyped = [n for n in getattr(self.s, "untyped_inputs", ()) if n in self.s.signals]
+        if self.allow_typeof and untyped and draw(st.integers(0, 9)) == 0:
+            return TypeOf(draw(st.sampled_from(untyped)))  # the type the compiler chose for an untyped input
         return draw(st.sampled_from(self.p.types))
 
     # -- leaves -------------------------------------------------------------------------
@@ -302,6 +305,7 @@ def scalar_program(draw, early_virtual=False, linear=False, max_stmts=8, max_dep
         if untyped_ok and draw(st.integers(0, 3)) == 0:
             stmts.append(Decl("Signal", name, draw(num(small_int()))))
             sc.typed[name] = False
+            sc.untyped_inputs = list(getattr(sc, "untyped_inputs", ())) + [name]
         else:
             ty = shared if same_type and draw(st.booleans()) else draw(st.sampled_from(pal.types))
             stmts.append(Decl("Signal", name, SigLit(ty, draw(num(small_int())))))
@@ -320,7 +324,7 @@ def scalar_program(draw, early_virtual=False, linear=False, max_stmts=8, max_dep
         sc.signals.append(name)
         sc.typed[name] = False  # conservative: .type only of declared inputs
         bare = e
-        while isinstance(bare, Paren):
+        while isinstance(bare, Paren) or (isinstance(bare, Un) and bare.op == "+"):
             bare = bare.e
         if isinstance(bare, Ref) and sc.state.get(bare.name) == "shared":
             sc.state[name] = "shared"  # an alias is the same wire: it inherits the source's sharing
